@@ -100,7 +100,39 @@ func init() {
 					}
 					return true
 				})
+				// direct accesses of a lexical scope map keyed by a symbol's text
+				type scopeAccess struct {
+					ix  *ast.IndexExpr
+					sym types.Object
+				}
+				var accesses []scopeAccess
+				ast.Inspect(u.Decl.Body, func(n ast.Node) bool {
+					if ix, ok := n.(*ast.IndexExpr); ok && FieldOfSelector(info, ix.X) == scope {
+						if se, ok := ast.Unparen(ix.Index).(*ast.SelectorExpr); ok && FieldOfSelector(info, se) == strFld {
+							accesses = append(accesses, scopeAccess{ix, identObj(info, se.X)})
+						}
+					}
+					return true
+				})
 				if len(idxObjs) == 0 {
+					// a function that splits the qualifier off a symbol (SplitSymbol) knows the symbol may
+					// be package-qualified; if it also indexes a lexical scope with that symbol's text it
+					// does so without ever having asked whether there is a qualifier
+					split := c.LookupPkgFunc("lisp.SplitSymbol")
+					splitOf := map[types.Object]bool{}
+					for _, ce := range callsIn(u.Decl.Body, true) {
+						if split != nil && originOf(Callee(info, ce)) == split && len(ce.Args) == 1 {
+							if o := identObj(info, ce.Args[0]); o != nil {
+								splitOf[o] = true
+							}
+						}
+					}
+					ord := &ordinal{}
+					for _, a := range accesses {
+						if a.sym != nil && splitOf[a.sym] {
+							obs = append(obs, mkOb(c, rid, u, ord.next("lexical scope indexed by the symbol's text"), a.ix, Violated, "this function resolves the package qualifier of `"+a.sym.Name()+"` (SplitSymbol) and also indexes a lexical scope with the symbol's full text, without a test that the symbol has no qualifier: a slot that a binding form created under the literal key `pkg:name` — which no evaluation can read — is found first, so (let ((user:x 5)) (set! user:x 9) user:x) writes the dead slot and leaves the package binding unchanged", true))
+						}
+					}
 					continue
 				}
 				ord := &ordinal{}
@@ -155,6 +187,18 @@ func init() {
 						for i, n := range b.Nodes {
 							if !fc.Dominates(dloc, Loc{b, i}) {
 								continue
+							}
+							// a scope map indexed directly with the text of the symbol whose separator was located
+							for _, a := range accesses {
+								if a.ix.Pos() < n.Pos() || a.ix.End() > n.End() {
+									continue
+								}
+								construct := ord.next("lexical scope indexed by the symbol's text")
+								if len(unq) > 0 && !fc.reachableFromAvoiding(dloc.B, b, unq) {
+									obs = append(obs, mkOb(c, rid, u, construct, a.ix, Proved, "reached only when the symbol has no package separator", true))
+								} else {
+									obs = append(obs, mkOb(c, rid, u, construct, a.ix, Violated, "a symbol known to be package-qualified indexes a lexical scope here: a slot created under the literal key `pkg:name` by a binding form shadows the package's binding for this resolver, while the evaluator resolves the same symbol in the package table", true))
+								}
 							}
 							for _, ce := range callsIn(n, false) {
 								f := originOf(Callee(info, ce))
